@@ -33,7 +33,10 @@ CONSTANTS W,            \* workers 0..W-1
           ReportOnlyIfBitSet,   \* FALSE (NEG) a removed handle is reported to the server only if its availability bit was still set
           JumpToFirstAvailable, \* FALSE (NEG) a saturated worker is skipped by jumping to the LOWEST available slot
           ResetSeparate,        \* FALSE (NEG) the waker queue is reset in a critical section of its own, after the empty pop
-          RejoinPausedNoAvail   \* FALSE (NEG) a replacement handle that arrives during a pause is stored but not marked available
+          RejoinPausedNoAvail,  \* FALSE (NEG) a replacement handle that arrives during a pause is stored but not marked available
+          RejoinAtIndex,        \* FALSE (NEG) a replacement handle is inserted at its index position; the cursor is not adjusted
+          DropPausePair,        \* FALSE (NEG) a Pause with a Resume queued right behind it is dropped as a pair, paused or not
+          TrackRepeat           \* FALSE : TRUE makes the ghosts lastD / rer follow the dispatches (C04_NoImmediateRepeatStep)
 
 Workers   == 0..(W - 1)
 Listeners == 1..L
@@ -51,16 +54,16 @@ VARIABLES
   \* bounds
   nconn, nfaults, ncmds, nerrs, nbare,
   \* ghosts (excluded from the VIEW)
-  served, closed, dispatchLog, rrWindow, everFaulted, pauseEffective, connRefused, fatalSeen, act
+  served, closed, dispatchLog, lastD, rer, rrWindow, everFaulted, pauseEffective, connRefused, fatalSeen, act
 
 sysvars == <<backlog, registered, edge, pathOk, errq, lstTimer, timeoutSet, paused, running, handles,
              next, avail, apc, batch, ret, cur, tokLeft, inHand, forced, turns, wq, wakerPending, chan,
              chanOpen, counter, inprog, alive, oldInprog, oldCounter, cmdq, nconn, nfaults, ncmds,
              nerrs, nbare>>
-ghosts  == <<served, closed, dispatchLog, rrWindow, everFaulted, pauseEffective, connRefused, fatalSeen, act>>
+ghosts  == <<served, closed, dispatchLog, lastD, rer, rrWindow, everFaulted, pauseEffective, connRefused, fatalSeen, act>>
 vars    == <<sysvars, ghosts>>
 \* pauseEffective, everFaulted and rrWindow influence property evaluation only; rrWindow is bounded
-View    == <<sysvars, pauseEffective, everFaulted, rrWindow, fatalSeen>>
+View    == <<sysvars, pauseEffective, everFaulted, rrWindow, fatalSeen, lastD, rer>>
 
 Range(s) == {s[k] : k \in 1..Len(s)}
 SeqOf(S) == CHOOSE s \in [1..Cardinality(S) -> S] : Range(s) = S   \* some fixed order (only for 1..L)
@@ -86,7 +89,7 @@ Init ==
   /\ oldInprog = [i \in Workers |-> {}] /\ oldCounter = [i \in Workers |-> 1]
   /\ cmdq = <<>>
   /\ nconn = 0 /\ nfaults = 0 /\ ncmds = 0 /\ nerrs = 0 /\ nbare = 0
-  /\ served = [c \in {} |-> 0] /\ closed = {} /\ dispatchLog = <<>> /\ rrWindow = <<>>
+  /\ served = [c \in {} |-> 0] /\ closed = {} /\ dispatchLog = <<>> /\ lastD = <<>> /\ rer = FALSE /\ rrWindow = <<>>
   /\ everFaulted = FALSE /\ pauseEffective = FALSE /\ connRefused = FALSE
   /\ fatalSeen = [l \in Listeners |-> FALSE]
   /\ act = A("Init")
@@ -130,7 +133,7 @@ Connect(l) ==
   /\ UNCH_ACCEPT
   /\ UNCHANGED <<registered, pathOk, errq, lstTimer, timeoutSet, wq, wakerPending, chan, chanOpen, counter,
                  inprog, alive, oldInprog, oldCounter, cmdq, nfaults, ncmds, nerrs, nbare, served, closed,
-                 dispatchLog, rrWindow, everFaulted, pauseEffective, fatalSeen>>
+                 dispatchLog, lastD, rer, rrWindow, everFaulted, pauseEffective, fatalSeen>>
 
 \* one poll of a ready worker: it drains its queue into service calls
 WorkerPoll(i) ==
@@ -142,7 +145,7 @@ WorkerPoll(i) ==
   /\ UNCH_ACCEPT
   /\ UNCHANGED <<backlog, registered, edge, pathOk, errq, lstTimer, timeoutSet, wq, wakerPending, chanOpen,
                  counter, alive, oldInprog, oldCounter, cmdq, nconn, nfaults, ncmds, nerrs, nbare, closed,
-                 dispatchLog, rrWindow, everFaulted, pauseEffective, connRefused, fatalSeen>>
+                 dispatchLog, lastD, rer, rrWindow, everFaulted, pauseEffective, connRefused, fatalSeen>>
 
 \* a connection finishes: its guard drops (fetch_sub; old value = WakeAt pushes WorkerAvailable)
 Finish(i, c) ==
@@ -157,7 +160,7 @@ Finish(i, c) ==
   /\ act' = [A("Finish") EXCEPT !.i = i, !.c = c]
   /\ UNCH_ACCEPT
   /\ UNCHANGED <<backlog, registered, edge, pathOk, errq, lstTimer, timeoutSet, chan, chanOpen, alive,
-                 oldInprog, oldCounter, cmdq, nconn, nfaults, ncmds, nerrs, nbare, served, dispatchLog,
+                 oldInprog, oldCounter, cmdq, nconn, nfaults, ncmds, nerrs, nbare, served, dispatchLog, lastD, rer,
                  everFaulted, pauseEffective, connRefused, fatalSeen>>
 
 \* a worker dies: its queue end closes (queued connections are closed), its in-progress connections
@@ -174,7 +177,7 @@ Kill(i) ==
   /\ act' = [A("Kill") EXCEPT !.i = i]
   /\ UNCH_ACCEPT
   /\ UNCHANGED <<backlog, registered, edge, pathOk, errq, lstTimer, timeoutSet, wq, wakerPending, counter,
-                 cmdq, nconn, ncmds, nerrs, nbare, served, dispatchLog, pauseEffective, connRefused, fatalSeen>>
+                 cmdq, nconn, ncmds, nerrs, nbare, served, dispatchLog, lastD, rer, pauseEffective, connRefused, fatalSeen>>
 
 \* an outstanding guard of a dead generation drops (possibly pushing a late WorkerAvailable)
 TearDown(i, c) ==
@@ -188,7 +191,7 @@ TearDown(i, c) ==
   /\ act' = [A("TearDown") EXCEPT !.i = i, !.c = c]
   /\ UNCH_ACCEPT
   /\ UNCHANGED <<backlog, registered, edge, pathOk, errq, lstTimer, timeoutSet, chan, chanOpen, counter,
-                 inprog, alive, cmdq, nconn, nfaults, ncmds, nerrs, nbare, served, dispatchLog, rrWindow,
+                 inprog, alive, cmdq, nconn, nfaults, ncmds, nerrs, nbare, served, dispatchLog, lastD, rer, rrWindow,
                  everFaulted, pauseEffective, connRefused, fatalSeen>>
 
 \* the server handles WorkerFaulted(i): fresh generation, new handle pushed to the accept thread
@@ -202,7 +205,7 @@ Replace ==
        /\ act' = [A("Replace") EXCEPT !.i = i]
   /\ UNCH_ACCEPT
   /\ UNCHANGED <<backlog, registered, edge, pathOk, errq, lstTimer, timeoutSet, chan, inprog, oldInprog,
-                 oldCounter, nconn, nfaults, ncmds, nerrs, nbare, served, closed, dispatchLog, rrWindow,
+                 oldCounter, nconn, nfaults, ncmds, nerrs, nbare, served, closed, dispatchLog, lastD, rer, rrWindow,
                  everFaulted, pauseEffective, connRefused, fatalSeen>>
 
 Cmd(x) ==
@@ -212,7 +215,7 @@ Cmd(x) ==
   /\ UNCH_ACCEPT
   /\ UNCHANGED <<backlog, registered, edge, pathOk, errq, lstTimer, timeoutSet, chan, chanOpen, counter,
                  inprog, alive, oldInprog, oldCounter, cmdq, nconn, nfaults, nerrs, nbare, served, closed,
-                 dispatchLog, rrWindow, everFaulted, pauseEffective, connRefused, fatalSeen>>
+                 dispatchLog, lastD, rer, rrWindow, everFaulted, pauseEffective, connRefused, fatalSeen>>
 
 \* a spurious wake of the poller (the stepped driver fires one before every iteration)
 BareWake ==
@@ -221,7 +224,7 @@ BareWake ==
   /\ UNCH_ACCEPT
   /\ UNCHANGED <<backlog, registered, edge, pathOk, errq, lstTimer, timeoutSet, wq, chan, chanOpen, counter,
                  inprog, alive, oldInprog, oldCounter, cmdq, nconn, nfaults, ncmds, nerrs, served, closed,
-                 dispatchLog, rrWindow, everFaulted, pauseEffective, connRefused, fatalSeen>>
+                 dispatchLog, lastD, rer, rrWindow, everFaulted, pauseEffective, connRefused, fatalSeen>>
 
 \* the next accept(2) on listener l fails: "conn" = aborted/reset/refused, "fatal" = EMFILE and the like
 InjectErr(l, kind) ==
@@ -231,7 +234,7 @@ InjectErr(l, kind) ==
   /\ UNCH_ACCEPT
   /\ UNCHANGED <<backlog, registered, edge, pathOk, lstTimer, timeoutSet, wq, wakerPending, chan, chanOpen,
                  counter, inprog, alive, oldInprog, oldCounter, cmdq, nconn, nfaults, ncmds, nbare, served,
-                 closed, dispatchLog, rrWindow, everFaulted, pauseEffective, connRefused, fatalSeen>>
+                 closed, dispatchLog, lastD, rer, rrWindow, everFaulted, pauseEffective, connRefused, fatalSeen>>
 
 \* the back-off deadline of listener l passes
 Tick(l) ==
@@ -240,7 +243,7 @@ Tick(l) ==
   /\ UNCH_ACCEPT
   /\ UNCHANGED <<backlog, registered, edge, pathOk, errq, timeoutSet, wq, wakerPending, chan, chanOpen,
                  counter, inprog, alive, oldInprog, oldCounter, cmdq, nconn, nfaults, ncmds, nerrs, nbare,
-                 served, closed, dispatchLog, rrWindow, everFaulted, pauseEffective, connRefused, fatalSeen>>
+                 served, closed, dispatchLog, lastD, rer, rrWindow, everFaulted, pauseEffective, connRefused, fatalSeen>>
 
 (* ------------------------------------------------------------------------------------------- *)
 (* the accept thread                                                                             *)
@@ -262,7 +265,7 @@ APoll ==
   /\ UNCH_ENV
   /\ UNCHANGED <<backlog, registered, pathOk, errq, lstTimer, timeoutSet, paused, running, handles, next,
                  avail, ret, cur, tokLeft, inHand, forced, turns, wq, chan, chanOpen, counter, inprog, alive,
-                 oldInprog, oldCounter, cmdq, served, closed, dispatchLog, rrWindow, everFaulted,
+                 oldInprog, oldCounter, cmdq, served, closed, dispatchLog, lastD, rer, rrWindow, everFaulted,
                  pauseEffective, fatalSeen>>
 
 \* next event of the batch: waker -> handle_waker loop; listener -> accept(l); none left -> process_timeout
@@ -278,7 +281,7 @@ ABatch ==
   /\ UNCH_ENV
   /\ UNCHANGED <<backlog, registered, edge, pathOk, errq, lstTimer, timeoutSet, paused, running, handles,
                  next, avail, inHand, forced, turns, wq, wakerPending, chan, chanOpen, counter, inprog, alive,
-                 oldInprog, oldCounter, cmdq, served, closed, dispatchLog, rrWindow, everFaulted,
+                 oldInprog, oldCounter, cmdq, served, closed, dispatchLog, lastD, rer, rrWindow, everFaulted,
                  pauseEffective, fatalSeen>>
 
 \* NEG ResetSeparate only: WakerQueue::reset replaces the queue's storage - taken under a second guard it throws away
@@ -290,10 +293,16 @@ AReset ==
   /\ UNCH_ENV
   /\ UNCHANGED <<backlog, registered, edge, pathOk, errq, lstTimer, timeoutSet, paused, running, handles,
                  next, avail, batch, ret, cur, tokLeft, inHand, forced, turns, wakerPending, chan, chanOpen, counter,
-                 inprog, alive, oldInprog, oldCounter, cmdq, served, closed, dispatchLog, rrWindow, everFaulted,
+                 inprog, alive, oldInprog, oldCounter, cmdq, served, closed, dispatchLog, lastD, rer, rrWindow, everFaulted,
                  pauseEffective, fatalSeen>>
 
 \* one pop of the waker queue (under its mutex) and the accept-thread-private reaction to it
+\* (variant RejoinAtIndex) the handle goes in front of the first handle with a larger worker index
+InsertByIdx(h, i) == LET later == {k \in 1..Len(h) : h[k] > i}
+                         pos == IF later = {} THEN Len(h) + 1 ELSE CHOOSE k \in later : \A j \in later : k <= j IN
+                       SubSeq(h, 1, pos - 1) \o <<i>> \o SubSeq(h, pos, Len(h))
+\* (variant DropPausePair) the head of the queue is a Pause with a Resume right behind it
+PairAtHead == DropPausePair /\ Len(wq) >= 2 /\ wq[1][1] = "Pause" /\ wq[2][1] = "Resume"
 APop ==
   /\ apc = "pop"
   /\ IF wq = <<>>
@@ -303,7 +312,7 @@ APop ==
                            tokLeft, pauseEffective>>
             /\ act' = [A("APop") EXCEPT !.x = "none"]
        ELSE LET m == Head(wq) IN
-            /\ wq' = Tail(wq)
+            /\ wq' = (IF PairAtHead THEN Tail(Tail(wq)) ELSE Tail(wq))
             /\ act' = [A("APop") EXCEPT !.x = m[1], !.i = m[2]]
             /\ CASE m[1] = "WA" ->
                       /\ avail' = (IF IgnoreUnknownIdx /\ ~InHandles(m[2]) THEN avail
@@ -313,11 +322,11 @@ APop ==
                       /\ UNCHANGED <<handles, paused, running, registered, edge, pathOk, lstTimer, pauseEffective>>
                  [] m[1] = "WK" ->
                       /\ avail' = (IF RejoinPausedNoAvail /\ paused THEN avail ELSE [avail EXCEPT ![m[2]] = TRUE])
-                      /\ handles' = Append(handles, m[2])
+                      /\ handles' = (IF RejoinAtIndex THEN InsertByIdx(handles, m[2]) ELSE Append(handles, m[2]))
                       /\ IF paused THEN UNCHANGED <<apc, ret, cur, tokLeft>> ELSE EnterAcceptAll
                       /\ UNCHANGED <<paused, running, registered, edge, pathOk, lstTimer, pauseEffective>>
                  [] m[1] = "Pause" ->
-                      /\ IF ~paused
+                      /\ IF ~paused /\ ~PairAtHead
                            THEN /\ paused' = TRUE
                                 \* listeners in back-off are skipped and lose their deadline
                                 /\ IF PauseKeepsRegistered
@@ -350,7 +359,7 @@ APop ==
   /\ rrWindow' = (IF wq # <<>> /\ Head(wq)[1] = "WK" THEN <<>> ELSE rrWindow)   \* a rejoin restarts the window
   /\ UNCH_ENV
   /\ UNCHANGED <<backlog, errq, timeoutSet, next, batch, inHand, forced, turns, wakerPending, chan, chanOpen,
-                 counter, inprog, alive, oldInprog, oldCounter, cmdq, served, closed, dispatchLog,
+                 counter, inprog, alive, oldInprog, oldCounter, cmdq, served, closed, dispatchLog, lastD, rer,
                  everFaulted, fatalSeen>>
 
 \* the loop head of accept(cur): while any worker is available call accept(2)
@@ -386,7 +395,7 @@ AAcceptSys ==
             /\ UNCHANGED <<errq, registered, pathOk, lstTimer, timeoutSet, cur, tokLeft, fatalSeen>>
   /\ UNCH_ENV
   /\ UNCHANGED <<paused, running, handles, next, avail, batch, ret, forced, wq, wakerPending, chan, chanOpen,
-                 counter, inprog, alive, oldInprog, oldCounter, cmdq, served, closed, dispatchLog, rrWindow,
+                 counter, inprog, alive, oldInprog, oldCounter, cmdq, served, closed, dispatchLog, lastD, rer, rrWindow,
                  everFaulted, pauseEffective>>
 
 \* one turn of the accept_one loop (accept-thread private)
@@ -409,7 +418,7 @@ AChoose ==
   /\ UNCH_ENV
   /\ UNCHANGED <<backlog, registered, edge, pathOk, errq, lstTimer, timeoutSet, paused, running, handles,
                  batch, ret, cur, tokLeft, inHand, wq, wakerPending, chan, chanOpen, counter, inprog, alive,
-                 oldInprog, oldCounter, cmdq, served, closed, dispatchLog, rrWindow, everFaulted,
+                 oldInprog, oldCounter, cmdq, served, closed, dispatchLog, lastD, rer, rrWindow, everFaulted,
                  pauseEffective, fatalSeen>>
 
 \* channel send to handles[next]
@@ -419,12 +428,13 @@ ASend ==
   /\ IF next >= Len(handles)
        THEN /\ apc' = "panicked"
             /\ act' = A("ASend")
-            /\ UNCHANGED <<chan, counter, dispatchLog, rrWindow, handles, cmdq, avail, next, inHand, closed, cur, tokLeft>>
+            /\ UNCHANGED <<chan, counter, dispatchLog, lastD, rer, rrWindow, handles, cmdq, avail, next, inHand, closed, cur, tokLeft>>
        ELSE LET i == handles[next + 1] IN
             IF chanOpen[i]
               THEN /\ chan' = [chan EXCEPT ![i] = Append(@, inHand)]
                    /\ counter' = (IF IncBeforeSend THEN [counter EXCEPT ![i] = @ + 1] ELSE counter)
                    /\ dispatchLog' = Append(dispatchLog, <<inHand, i>>)
+                   /\ lastD' = (IF TrackRepeat THEN <<i, Len(handles)>> ELSE lastD) /\ rer' = FALSE
                    /\ rrWindow' = (IF Len(rrWindow) >= W THEN Tail(rrWindow) ELSE rrWindow) \o <<i>>
                    /\ apc' = "inc"
                    /\ act' = [A("ASend") EXCEPT !.i = i, !.c = inHand, !.x = "ok"]
@@ -443,7 +453,7 @@ ASend ==
                              /\ apc' = (IF forced \/ ResendWithoutCheck THEN "send" ELSE "one")
                              /\ UNCHANGED <<inHand, closed, cur, tokLeft>>
                    /\ rrWindow' = <<>>
-                   /\ UNCHANGED <<chan, counter, dispatchLog>>
+                   /\ rer' = (TrackRepeat /\ Len(handles) > 1) /\ UNCHANGED <<chan, counter, dispatchLog, lastD>>
   /\ UNCH_ENV
   /\ UNCHANGED <<backlog, registered, edge, pathOk, errq, lstTimer, timeoutSet, paused, running, batch, ret,
                  forced, turns, wq, wakerPending, chanOpen, inprog, alive, oldInprog, oldCounter, served,
@@ -468,7 +478,7 @@ AInc ==
   /\ UNCH_ENV
   /\ UNCHANGED <<backlog, registered, edge, pathOk, errq, lstTimer, timeoutSet, paused, running, handles,
                  batch, ret, cur, tokLeft, inHand, forced, turns, wq, wakerPending, chan, chanOpen, inprog, alive,
-                 oldInprog, cmdq, served, closed, dispatchLog, everFaulted, pauseEffective, fatalSeen>>
+                 oldInprog, cmdq, served, closed, dispatchLog, lastD, rer, everFaulted, pauseEffective, fatalSeen>>
 
 \* process_timeout at the end of every loop iteration
 ATimeout ==
@@ -485,7 +495,7 @@ ATimeout ==
   /\ UNCH_ENV
   /\ UNCHANGED <<backlog, pathOk, errq, paused, running, handles, next, avail, batch, ret, cur, tokLeft, inHand,
                  forced, turns, wq, wakerPending, chan, chanOpen, counter, inprog, alive, oldInprog,
-                 oldCounter, cmdq, served, closed, dispatchLog, rrWindow, everFaulted, fatalSeen>>
+                 oldCounter, cmdq, served, closed, dispatchLog, lastD, rer, rrWindow, everFaulted, fatalSeen>>
 
 AcceptStep == APoll \/ ABatch \/ APop \/ AReset \/ AAcceptSys \/ AChoose \/ ASend \/ AInc \/ ATimeout
 EnvStep == \/ \E l \in Listeners : Connect(l) \/ Tick(l) \/ \E k \in {"conn", "fatal"} : InjectErr(l, k)
@@ -558,11 +568,22 @@ C04_CyclicStep ==
      \A w \in BetweenW(dispatchLog[Len(dispatchLog)][2], act'.i) : ~avail[w]
 \* a connection is sent only to a worker that is marked available - or, when nobody is, to the worker in turn (forced)
 C04_SendOnlyToMarkedStep == (act'.n = "ASend" /\ act'.x = "ok") => (avail[act'.i] \/ forced)
+\* the rotation cursor survives every change of the handle list: two consecutive connections go to the same worker only
+\* if the second was re-routed after a failed send, fewer than two handles were left after the first, or some handle in
+\* the rotation is marked unavailable (checked in the configs with TrackRepeat)
+C04_NoImmediateRepeatStep ==
+  (TrackRepeat /\ act'.n = "ASend" /\ act'.x = "ok" /\ lastD # <<>> /\ lastD[1] = act'.i /\ lastD[2] >= 2 /\ ~rer)
+     => \E k \in 1..Len(handles) : ~avail[handles[k]]
 C04_SaturatedGetsNothingStep ==
   (act'.n = "ASend" /\ act'.x = "ok" /\ ~everFaulted) => Load(act'.i) < Limit
 
 \* ---- C05 ----
 C05_PausedNoDispatchStep == (act'.n = "ASend" /\ act'.x = "ok") => ~pauseEffective
+\* pause / resume commands take effect one by one, in queue order, whatever the mode: after a Pause has been taken off the
+\* queue the loop is paused, after a Resume it is not (idempotent; hence it is paused exactly when the last one was a pause)
+C05_CommandEffectStep ==
+  /\ (act'.n = "APop" /\ act'.x = "Pause") => (paused' /\ wq' = Tail(wq))
+  /\ (act'.n = "APop" /\ act'.x = "Resume") => (~paused' /\ wq' = Tail(wq))
 C05_ListenerLive ==
   (Quiescent /\ running /\ ~paused) => \A l \in Listeners : lstTimer[l] = 0 => (registered[l] /\ pathOk[l])
 C05_UdsReachable == running => ~connRefused
@@ -581,9 +602,12 @@ C08_FaultReportedOnce == Distinct(cmdq) /\ Len(cmdq) <= nfaults
 C08_NoLostIndex == \A i \in Workers :
   InHandles(i) \/ (\E k \in 1..Len(cmdq) : cmdq[k] = i) \/ (\E k \in 1..Len(wq) : wq[k] = <<"WK", i>>)
 
-Steps == [][C04_SaturatedGetsNothingStep /\ C04_SendOnlyToMarkedStep /\ C04_CyclicStep /\ C05_PausedNoDispatchStep /\ C08_DeadGetsNothingStep]_vars
+Steps == [][C04_SaturatedGetsNothingStep /\ C04_SendOnlyToMarkedStep /\ C04_CyclicStep /\ C04_NoImmediateRepeatStep /\ C05_PausedNoDispatchStep
+            /\ C05_CommandEffectStep /\ C08_DeadGetsNothingStep]_vars
 
 (* ---------------- TLC plumbing ---------------- *)
+StepNoRepeat == [][C04_NoImmediateRepeatStep]_vars
+StepCmdEffect == [][C05_CommandEffectStep]_vars
 LogEdge == PrintT(<<"EDGE", ToJson([from |-> View, act |-> act', to |-> View', q |-> Quiescent'])>>)
 LogInit == TLCGet("level") > 1 \/ PrintT(<<"INIT", ToJson([from |-> View])>>)
 =============================================================================
